@@ -23,27 +23,56 @@ THEOREMS = ["SleapVerif.C01." + t for t in [
     "multi_eq_sup", "multi_value", "multi_shape", "multi_range",
     "multi_ignores_padding", "multi_ignores_suffix", "multi_ignores_missing", "multi_missing_zero",
     "centroid_single_channel",
-    "multi_batch_partial", "multi_batch_counterexample",
+    "cm_antitone_dist_cross", "multi_argmax_nearest", "flatten_channel_index", "cm4_value",
+    "multi_batch_independent", "multi_batch_value", "centroid_batch_independent", "cm_batch_independent",
+    "multi_batch_asIs_single", "multi_batch_asIs_counterexample",
 ]]
 
 TOL = 2e-6          # float32 implementation vs float64 model: observed noise ≤ ~1.2e-7 (evidence: max_abs_diff)
 ARG_MARGIN = 1e-4   # argmax compared only when best − second-best (model, float64) exceeds this
+# tail check: wherever the reference value is ≥ TAIL_MIN (far above float32's smallest normal 1.2e-38) the
+# implementation must be positive and within a RELATIVE tolerance that grows with the exponent
+# (float32 rounding of the exponent argument a = -ln v is ~3e-7·a; observed: evidence max_rel_over_tol)
+TAIL_MIN = 1e-30
 VARIANTS = ["cm3", "cm4", "multi", "cent", "dp_cm", "dp_cm_inst", "dp_multi", "dp_cent"]
-SIG_BATCH = "multi_n_samples_gt_1"
+DEFAULTS = {"cm3": (1.5, 2), "cm4": (1.5, 2), "multi": (1.5, 2), "cent": (1.5, 2),
+            "dp_cm": (1.5, 1), "dp_cm_inst": (1.5, 1), "dp_cent": (1.5, 1)}   # (sigma, output_stride) in the signatures
+
+
+def rel_tol(ref):
+    return 2e-5 + 4e-6 * np.abs(np.log(ref))
+
+
+def tail_mismatch(out, ref):
+    """First cell where ref ≥ TAIL_MIN and out is not positive / not within rel_tol; also returns
+    the largest observed (relative error / tolerance)."""
+    mask = ref >= TAIL_MIN
+    if not mask.any():
+        return None, 0.0
+    r = ref[mask]
+    o = out[mask]
+    err = np.abs(o / r - 1.0) / rel_tol(r)
+    k = int(np.argmax(err))
+    if err[k] > 1.0:
+        idx = np.argwhere(mask)[k]
+        return (tuple(int(v) for v in idx), float(o[k]), float(r[k])), float(err[k])
+    return None, float(err[k])
 
 
 # ------------------------------------------------------------------ generator
 def gen_coord(rng, size):
-    """One coordinate on the k/16 lattice: inside, on the border, outside; None = NaN."""
+    """One coordinate on the k/16 lattice: inside, on the border, outside, far outside."""
     r = rng.random()
-    if r < 0.62:
+    if r < 0.58:
         return rng.randrange(0, 16 * size) / 16.0
-    if r < 0.72:
+    if r < 0.68:
         return float(rng.choice([0, size - 1, size, max(size - 1, 0) // 2]))
-    if r < 0.80:
+    if r < 0.75:
         return rng.randrange(-16 * 6, 0) / 16.0
-    if r < 0.88:
+    if r < 0.82:
         return size + rng.randrange(0, 16 * 6) / 16.0
+    if r < 0.87:  # far outside: up to ±10 image sizes
+        return rng.choice([-1, 1]) * rng.randrange(16 * size, 16 * 10 * size + 1) / 16.0 + (size if rng.random() < 0.5 else 0)
     if r < 0.93:  # not on the lattice: an arbitrary float32
         return float(np.float32(rng.uniform(-2.0, size + 2.0)))
     return float(rng.randrange(0, size))  # exactly on a pixel
@@ -56,27 +85,35 @@ def gen_point(rng, H, W, nan_mode):
     return [x, y]
 
 
-def gen_case(rng, variant=None, pin=None):
+def gen_sigma(rng):
+    if rng.random() < 0.6:
+        return rng.choice([0.5, 1.0, 1.5, 2.5, 5.0])
+    return float(math.exp(rng.uniform(math.log(0.05), math.log(20.0))))   # continuous, any double
+
+
+def gen_case(rng, variant=None, pin=None, allow_decoy=True):
     pin = pin or {}
     variant = variant or rng.choice(VARIANTS)
-    stride = pin.get("stride") or rng.choice([1, 2, 2, 4, 4, 8])
-    sigma = pin.get("sigma") or rng.choice([0.5, 1.0, 1.5, 2.5, 5.0])
+    stride = pin.get("stride") or rng.choice([1, 2, 2, 4, 4, 8, 16, 32])
+    sigma = pin.get("sigma") or gen_sigma(rng)
     if "H" in pin:
         H, W = pin["H"], pin["W"]
     else:
         r = rng.random()
-        if r < 0.45:   # multiples of the stride (what the datasets produce)
+        if stride >= 16 and r < 0.7:       # large frames (grid stays ≤ 64 x 64)
+            H, W = rng.randrange(33, 1537), rng.randrange(33, 1537)
+            if rng.random() < 0.5:
+                H, W = H // stride * stride, W // stride * stride
+        elif r < 0.45:   # multiples of the stride (what the datasets produce)
             H, W = stride * rng.randrange(1, max(2, 40 // stride)), stride * rng.randrange(1, max(2, 40 // stride))
         elif r < 0.9:
             H, W = rng.randrange(1, 41), rng.randrange(1, 41)
         else:
             H, W = rng.randrange(1, 65), rng.randrange(1, 65)
-    n_inst = rng.choice([0, 1, 1, 2, 2, 3, 4])
+    n_inst = rng.choice([0, 1, 1, 1, 2, 2, 2, 3, 3, 4, 4, 1, 2, 3])
     n_nodes = rng.choice([1, 1, 2, 3, 4, 5])
-    n_samples = 1 if rng.random() < 0.8 else 2
-    if variant.startswith("dp_"):
-        n_samples = 1
-    nan_mode = rng.choice(["none", "none", "one", "anchor", "animal", "half", "all"])
+    n_samples = 1 if rng.random() < 0.75 else 2
+    nan_mode = rng.choice(["none"] * 4 + ["one"] * 3 + ["anchor"] * 2 + ["animal"] * 2 + ["half"] * 2 + ["all"])
 
     def animal(missing_animal=False):
         pts = [gen_point(rng, H, W, nan_mode) for _ in range(n_nodes)]
@@ -99,11 +136,23 @@ def gen_case(rng, variant=None, pin=None):
         case["pts"] = [animals() for _ in range(n_samples)]                     # (S, I, N, 2)
         case["n_nodes"] = n_nodes
     else:  # cent, dp_cent
-        n_nodes = 1
         case["pts"] = [[a[0] for a in animals()] for _ in range(n_samples)]     # (S, I, 2)
     if variant in ("multi", "cent", "dp_cent"):
-        case["num_instances"] = rng.choice([n_inst, n_inst, n_inst, max(n_inst - 1, 0), n_inst + 2, 0])
+        case["num_instances"] = rng.choice([n_inst] * 7 + [max(n_inst - 1, 0)] * 2 + [n_inst + 2] * 2 + [0])
+    # DataPipes: sometimes a second, different example travels through the same pipe object
+    if variant.startswith("dp_") and allow_decoy and rng.random() < 0.35:
+        case["decoy"] = gen_case(rng, variant, allow_decoy=False)
+        case["decoy"]["sigma"], case["decoy"]["stride"] = sigma, stride
+        case["decoy_first"] = rng.random() < 0.6
     return case
+
+
+def default_case(rng, variant):
+    """Entry point called with its default sigma / output_stride (not passed explicitly)."""
+    sg, st = DEFAULTS[variant]
+    c = gen_case(rng, variant, pin={"sigma": sg, "stride": st}, allow_decoy=False)
+    c["defaults"] = True
+    return c
 
 
 # ------------------------------------------------------------------ implementation
@@ -121,53 +170,64 @@ def to_tensor(pts, shape):
     return torch.tensor(np.array(flat, dtype=np.float64).reshape(shape), dtype=torch.float32)
 
 
+def case_tensor(case):
+    v, pts = case["variant"], case["pts"]
+    S = len(pts)
+    if v in ("cm4", "dp_cm", "multi", "dp_multi"):
+        return to_tensor(pts, (S, len(pts[0]), case["n_nodes"], 2))
+    return to_tensor(pts, (S, len(pts[0]), 2))
+
+
+def dp_example(case, t):
+    import torch
+    v = case["variant"]
+    img = torch.zeros((t.shape[0], 1, case["H"], case["W"]))
+    if v == "dp_cm":
+        return {"image": img, "instances": t}
+    if v == "dp_cm_inst":
+        return {"instance_image": img, "instance": t}
+    if v == "dp_multi":
+        return {"image": img, "instances": t}
+    return {"image": img, "centroids": t, "num_instances": case["num_instances"]}
+
+
 def run_impl(case):
     import torch
     from sleap_nn.data import confidence_maps as cmod
 
     v, H, W, s, sg = case["variant"], case["H"], case["W"], case["stride"], case["sigma"]
-    pts = case["pts"]
-    S = len(pts)
-    if v in ("cm3", "dp_cm_inst"):
-        t = to_tensor(pts, (S, len(pts[0]), 2))
-    elif v in ("cm4", "dp_cm", "multi", "dp_multi"):
-        t = to_tensor(pts, (S, len(pts[0]), case["n_nodes"], 2))
-    else:
-        t = to_tensor(pts, (S, len(pts[0]), 2))
+    t = case_tensor(case)
     before = t.clone()
+    kw = {} if case.get("defaults") else {"sigma": sg, "output_stride": s}
     if v in ("cm3", "cm4"):
-        r = call(cmod.generate_confmaps, t, (H, W), sigma=sg, output_stride=s)
+        r = call(cmod.generate_confmaps, t, (H, W), **kw)
     elif v == "multi":
-        r = call(cmod.generate_multiconfmaps, t, (H, W), case["num_instances"], sigma=sg, output_stride=s,
-                 is_centroids=False)
+        r = call(cmod.generate_multiconfmaps, t, (H, W), case["num_instances"], **kw,
+                 **({} if case.get("defaults") else {"is_centroids": False}))
     elif v == "cent":
-        r = call(cmod.generate_multiconfmaps, t, (H, W), case["num_instances"], sigma=sg, output_stride=s,
-                 is_centroids=True)
+        r = call(cmod.generate_multiconfmaps, t, (H, W), case["num_instances"], **kw, is_centroids=True)
     else:
-        img = torch.zeros((1, 1, H, W))
+        exs = [dp_example(case, t)]
+        pos = 0
+        if case.get("decoy"):
+            d = dp_example(case["decoy"], case_tensor(case["decoy"]))
+            exs, pos = ([d] + exs, 1) if case.get("decoy_first") else (exs + [d], 0)
         if v == "dp_cm":
-            ex = {"image": img, "instances": t}
-            dp = cmod.ConfidenceMapGenerator([ex], sigma=sg, output_stride=s)
-            key = "confidence_maps"
+            dp, key = cmod.ConfidenceMapGenerator(exs, **kw), "confidence_maps"
         elif v == "dp_cm_inst":
-            ex = {"instance_image": img, "instance": t}
-            dp = cmod.ConfidenceMapGenerator([ex], sigma=sg, output_stride=s, image_key="instance_image",
-                                             instance_key="instance")
+            dp = cmod.ConfidenceMapGenerator(exs, **kw, image_key="instance_image", instance_key="instance")
             key = "confidence_maps"
         elif v == "dp_multi":
-            ex = {"image": img, "instances": t}
-            dp = cmod.MultiConfidenceMapGenerator([ex], sigma=sg, output_stride=s, centroids=False)
-            key = "confidence_maps"
+            dp, key = cmod.MultiConfidenceMapGenerator(exs, **kw, centroids=False), "confidence_maps"
         else:
-            ex = {"image": img, "centroids": t, "num_instances": case["num_instances"]}
-            dp = cmod.MultiConfidenceMapGenerator([ex], sigma=sg, output_stride=s, centroids=True)
+            dp = cmod.MultiConfidenceMapGenerator(exs, **kw, **({} if case.get("defaults") else {"centroids": True}))
             key = "centroids_confidence_maps"
-        r = call(lambda: list(dp)[0][key])
+        r = call(lambda: [e[key].clone() for e in list(dp)][pos])
     if r[0] == "raise":
         return r
     if not torch.equal(torch.nan_to_num(before, nan=-12345.0), torch.nan_to_num(t, nan=-12345.0)):
         return ("raise", "InputMutated", "input tensor was modified")
-    return ("ok", r[1].detach().cpu().numpy())
+    return ("ok", r[1].detach().cpu().numpy().copy())
 
 
 # ------------------------------------------------------------------ model side
@@ -194,26 +254,30 @@ def channels_of(case):
 
 
 def model_lines(case):
-    """One driver request per sample (None: outside the modelled region, oracle only)."""
+    """One driver request for the whole batch (the driver calls the batch-level model definitions and
+    answers one report per sample, joined by ' ; ')."""
     v = case["variant"]
     head = f"{rat(case['sigma'])} {case['stride']} {case['H']} {case['W']}"
-    S = len(case["pts"])
-    if v in ("multi", "cent") and S > 1:
-        return None   # make_multi_confmaps mixes samples (F-C01): excluded region, oracle only
-    lines = []
-    for smp in case["pts"]:
-        if v in ("cm3", "dp_cm_inst"):
-            lines.append(f"cm {head} {len(smp)} " + " ".join(pt_str(p) for p in smp))
-        elif v in ("cm4", "dp_cm"):
-            flat = [p for a in smp for p in a]
-            lines.append(f"cm {head} {len(flat)} " + " ".join(pt_str(p) for p in flat))
-        elif v in ("multi", "dp_multi"):
-            k = case["num_instances"] if v == "multi" else len(smp)
-            flat = [p for a in smp for p in a]
-            lines.append(f"multi {head} {k} {case['n_nodes']} {len(smp)} " + " ".join(pt_str(p) for p in flat))
-        else:
-            lines.append(f"cent {head} {case['num_instances']} {len(smp)} " + " ".join(pt_str(p) for p in smp))
-    return [" ".join(l.split()) for l in lines]
+    pts = case["pts"]
+    S = len(pts)
+    if v in ("cm3", "dp_cm_inst"):
+        flat = [p for smp in pts for p in smp]
+        line = f"cm {head} {S} {len(pts[0])} " + " ".join(pt_str(p) for p in flat)
+    elif v in ("cm4", "dp_cm"):
+        flat = [p for smp in pts for a in smp for p in a]
+        line = f"cm4 {head} {S} {len(pts[0])} {case['n_nodes']} " + " ".join(pt_str(p) for p in flat)
+    elif v in ("multi", "dp_multi"):
+        k = case["num_instances"] if v == "multi" else len(pts[0])
+        flat = [p for smp in pts for a in smp for p in a]
+        line = f"multi {head} {k} {case['n_nodes']} {S} {len(pts[0])} " + " ".join(pt_str(p) for p in flat)
+    else:
+        flat = [p for smp in pts for p in smp]
+        line = f"cent {head} {case['num_instances']} {S} {len(pts[0])} " + " ".join(pt_str(p) for p in flat)
+    return [" ".join(line.split())]
+
+
+def split_reply(reply):
+    return [r.strip() for r in reply.split(";")]
 
 
 def parse_model(line):
@@ -250,6 +314,10 @@ def compare(chk, case, b, impl_b, m):
             return f"channel {c} cell ({i},{j}): impl {ch[i, j]!r} model {m['vals'][c][i, j]!r}"
         if h * w == 0:
             continue
+        bad, worst = tail_mismatch(ch, m["vals"][c])
+        chk.extra["max_rel_over_tol"] = max(chk.extra.get("max_rel_over_tol", 0.0), worst)
+        if bad:
+            return f"channel {c} cell {bad[0]}: impl {bad[1]!r} vs model {bad[2]!r} differ relatively (tail check)"
         flat = m["vals"][c].ravel()
         a = m["argmax"][c]
         best = flat[a]
@@ -300,18 +368,15 @@ def oracle(case, out):
                 i, j = np.unravel_index(int(np.argmax(d)), d.shape)
                 return (f"sample {b} channel {c} cell (row {i}, col {j}): value {o[c][i, j]!r}, "
                         f"Gaussian of the distance gives {ref[i, j]!r}")
+            bad, _ = tail_mismatch(o[c], ref)
+            if bad:
+                return (f"sample {b} channel {c} cell (row {bad[0][0]}, col {bad[0][1]}): value {bad[1]!r}, Gaussian of the "
+                        f"distance gives {bad[2]!r} (relative error beyond the float32 allowance; tail check)")
             flat = ref.ravel()
             a = int(np.argmax(flat))
             if flat.size > 1 and flat[a] - np.max(np.delete(flat, a)) > ARG_MARGIN and int(np.argmax(o[c].ravel())) != a:
                 return f"sample {b} channel {c}: maximum at flat cell {int(np.argmax(o[c].ravel()))}, nearest cell is {a}"
     return None
-
-
-def signatures(case):
-    sig = []
-    if case["variant"] in ("multi", "cent") and len(case["pts"]) > 1:
-        sig.append(SIG_BATCH)
-    return sig
 
 
 def case_size(case):
@@ -325,8 +390,8 @@ def case_size(case):
             flat.append(t)
     walk(case["pts"])
     nonint = sum(1 for p in flat for v in p if v is not None and v != round(v))
-    return (len(flat), len(case["pts"]), case["H"] + case["W"], case["stride"], 0 if case["sigma"] == 1.0 else 1,
-            nonint)
+    return (1 if case.get("decoy") else 0, len(flat), len(case["pts"]), case["H"] + case["W"], case["stride"],
+            0 if case["sigma"] == 1.0 else 1, nonint)
 
 
 def shrink(case, still_fails):
@@ -349,9 +414,12 @@ def shrink(case, still_fails):
                 if "num_instances" in c:
                     c["num_instances"] = min(c["num_instances"], len(c["pts"][0]))
                 cands.append(c)
-        if len(cur["pts"]) > 1 and not signatures(cur):
+        if len(cur["pts"]) > 1:
             c = copy.deepcopy(cur); c["pts"] = c["pts"][:1]; cands.append(c)
-        for key, small in (("H", [4, 8]), ("W", [4, 8]), ("stride", [1, 2]), ("sigma", [1.0])):
+        if cur.get("decoy"):
+            c = copy.deepcopy(cur); c.pop("decoy"); c.pop("decoy_first", None); cands.insert(0, c)
+        keys = (("H", [4, 8]), ("W", [4, 8])) + (() if cur.get("defaults") else (("stride", [1, 2]), ("sigma", [1.0])))
+        for key, small in keys:
             for val in small:
                 if cur[key] != val:
                     c = copy.deepcopy(cur); c[key] = val; cands.append(c)
@@ -398,6 +466,16 @@ def tags_of(case):
         t.append("outside_point")
     if not flat:
         t.append("no_points")
+    if case.get("decoy"):
+        t.append("dp_two_examples")
+    if case.get("defaults"):
+        t.append("default_arguments")
+    if max(case["H"], case["W"]) > 64:
+        t.append("large_frame")
+    if case["sigma"] not in (0.5, 1.0, 1.5, 2.5, 5.0):
+        t.append("continuous_sigma")
+    if any(p[0] is not None and p[1] is not None and (abs(p[0]) > 2 * case["W"] + 8 or abs(p[1]) > 2 * case["H"] + 8) for p in flat):
+        t.append("far_outside_point")
     return t
 
 
@@ -407,21 +485,21 @@ def check_case(chk, case, model_replies):
     reported = False
     if r[0] == "raise":
         chk.disagree("confidence maps: implementation raised where the model does not", case, list(r), "ok")
-        chk.fail(f"C01: implementation raised {r[1]}: {r[2]}", case, list(r), signatures(case))
+        chk.fail(f"C01: implementation raised {r[1]}: {r[2]}", case, list(r), ())
         return True
     out = r[1]
     if model_replies is not None:
-        for b, line in enumerate(model_replies):
-            why = compare(chk, case, b, out[b] if b < out.shape[0] else np.zeros(0), parse_model(line))
-            if why:
-                chk.disagree("generate_*confmaps == Confmaps model", case, why, "see case")
-                reported = True
-                break
-        if out.shape[0] != len(model_replies):
-            chk.disagree("generate_*confmaps batch size", case, list(out.shape), len(model_replies))
+        reps = split_reply(model_replies[0])
+        if out.ndim != 4 or out.shape[0] != len(reps):
+            chk.disagree("generate_*confmaps batch size", case, list(out.shape), len(reps))
             reported = True
-    else:
-        chk.extra["excluded_region_cases"] = chk.extra.get("excluded_region_cases", 0) + 1
+        else:
+            for b, line in enumerate(reps):
+                why = compare(chk, case, b, out[b], parse_model(line))
+                if why:
+                    chk.disagree("generate_*confmaps == Confmaps model", case, f"sample {b}: {why}", "see case")
+                    reported = True
+                    break
     why = oracle(case, out)
     if why:
         def still(c):
@@ -430,7 +508,7 @@ def check_case(chk, case, model_replies):
         small = shrink(case, still)
         rr = run_impl(small)
         chk.fail("C01 fails on the implementation: " + (oracle(small, rr[1]) or why), small,
-                 {"original_case": case, "why_original": why}, signatures(small))
+                 {"original_case": case, "why_original": why}, ())
         reported = True
     return reported
 
@@ -447,7 +525,7 @@ def main(chk: Check):
     import torch
     torch.manual_seed(rng.randrange(2 ** 31))
 
-    # ---- known finding replay (witness from known_findings/C01.json)
+    # ---- F-C01 (fixed in 372b25e): the witness is replayed as a regression on every run
     for ent in chk.known:
         if ent["id"] == "F-C01":
             w = ent.get("witness") or F_C01_WITNESS
@@ -471,32 +549,37 @@ def main(chk: Check):
          "pts": [[[2.0, 3.0], [6.0, 6.0]]]},
         {"variant": "multi", "H": 6, "W": 6, "stride": 2, "sigma": 1.0, "n_nodes": 3, "num_instances": 0,
          "pts": [[]]},
+        F_C01_WITNESS,
+        # two samples x two animals: catches a sample/instance axis mix-up in the reduction
+        {"variant": "multi", "H": 8, "W": 8, "stride": 1, "sigma": 1.0, "n_nodes": 1, "num_instances": 2,
+         "pts": [[[[1.0, 1.0]], [[6.0, 1.0]]], [[[1.0, 6.0]], [[6.0, 6.0]]]]},
+        {"variant": "cent", "H": 8, "W": 8, "stride": 1, "sigma": 1.0, "num_instances": 2,
+         "pts": [[[1.0, 1.0], [6.0, 1.0]], [[1.0, 6.0], [6.0, 6.0]]]},
+        # large frame / large stride / far-away keypoint / small and large continuous sigma
+        {"variant": "cm3", "H": 1024, "W": 768, "stride": 32, "sigma": 0.73, "pts": [[[511.5, 300.25], [-5000.0, 12.0]]]},
+        {"variant": "cm3", "H": 64, "W": 64, "stride": 16, "sigma": 0.05, "pts": [[[16.0, 32.0], [17.0, 33.0]]]},
+        {"variant": "multi", "H": 512, "W": 512, "stride": 16, "sigma": 19.7, "n_nodes": 2, "num_instances": 2,
+         "pts": [[[[100.0, 100.0], [400.0, 90.0]], [[5000.0, 100.0], [250.5, 250.5]]]]},
     ]
+    for v in DEFAULTS:                      # every entry point once with its default sigma / output_stride
+        cases.append(default_case(rng, v))
     n_rand = chk.n(800, 8000)
     for k in range(n_rand):
         cases.append(gen_case(rng, VARIANTS[k % len(VARIANTS)]))
 
-    lines, index = [], []
-    for case in cases:
-        ml = model_lines(case)
-        if ml is None:
-            index.append(None)
-        else:
-            index.append((len(lines), len(ml)))
-            lines += ml
+    lines = [model_lines(case)[0] for case in cases]
     replies = run_driver("C01.lean", lines)
 
     bad_cases = []
-    for case, idx in zip(cases, index):
-        rep = None if idx is None else replies[idx[0]: idx[0] + idx[1]]
+    for case, rep in zip(cases, replies):
         chk.case(case_key(case) if nontrivial(case) else None,
                  {k: case[k] for k in ("variant", "H", "W", "stride", "sigma")} | {"pts": case["pts"]},
                  tags=tags_of(case))
-        if check_case(chk, case, rep) and not signatures(case):
+        if check_case(chk, case, [rep]):
             bad_cases.append(case)
 
     # ---- failing-input search around disagreements: same generator, parameters pinned, x20
-    if chk.disagreements and not [f for f in chk.failing if not f["signatures"]]:
+    if chk.disagreements and not chk.failing:
         extra = []
         for bc in bad_cases[:3]:
             for _ in range(20):
@@ -514,8 +597,7 @@ def main(chk: Check):
 def replay(chk: Check, payload):
     import_repo()
     case = payload.get("case") or payload["disagreements"][0]["case"]
-    ml = model_lines(case)
-    rep = run_driver("C01.lean", ml) if ml else None
+    rep = run_driver("C01.lean", model_lines(case))
     chk.case(case_key(case))
     r = run_impl(case)
     print(f"replay case={case}\n impl={'raise ' + str(r[1:]) if r[0] == 'raise' else 'shape ' + str(r[1].shape)}"
@@ -527,27 +609,34 @@ if __name__ == "__main__":
     chk = Check(
         "C01", module="SleapVerif.Props.C01", theorems=THEOREMS,
         build_targets=["SleapVerif.Model.Proto", "SleapVerif.Model.Scalar", "SleapVerif.Model.Grid",
-                       "SleapVerif.Model.Confmaps", "SleapVerif.Lemmas.Transc"],
+                       "SleapVerif.Model.Confmaps", "SleapVerif.Lemmas.Transc", "SleapVerif.Lemmas.GridTab"],
         trusted=[
             "Lean 4.33 kernel + Mathlib; axioms ⊆ {propext, Classical.choice, Quot.sound} (audited per run)",
             "hand-written model Confmaps.lean/Grid.lean of confidence_maps.py + make_grid_vectors; tied to /repo by the "
-            "correspondence on the explored inputs only",
+            "correspondence on the explored inputs only (make_grid_vectors additionally by the AST translation, TranslatedC01)",
             "exp enters as a parameter with the order laws of Lemmas/Transc.lean (instantiated at ℝ by realTransc)",
-            f"float32 evaluation in torch stays within {TOL} of the float64 evaluation of the same expressions "
-            "(measured: evidence max_abs_diff), NaN plumbing (nan_to_num) amounts to none ↦ 0 (checked exactly)",
-            "torch.arange/reshape/broadcast/maximum index semantics (validated by the correspondence)",
+            f"float32 evaluation in torch stays within {TOL} absolute and (2e-5 + 4e-6·|ln v|) relative (for v ≥ {TAIL_MIN}) of "
+            "the float64 evaluation of the same expressions (measured: evidence max_abs_diff, max_rel_over_tol); "
+            "NaN plumbing (nan_to_num) amounts to none ↦ 0 (checked exactly)",
+            "torch.arange/reshape/view/broadcast/maximum index semantics (validated by the correspondence)",
         ],
-        rule="8 entry points (generate_confmaps rank 3/4, generate_multiconfmaps, centroid variant, the two DataPipe "
-             "classes in 4 configurations) x H,W in 1..64 (45% stride-multiples) x stride {1,2,4,8} x sigma "
-             "{.5,1,1.5,2.5,5} x 0-4 animals x 1-5 nodes x coordinates on the k/16 lattice inside/on/outside the "
-             "border (+5% arbitrary float32) x NaN patterns {none, one node, anchor, whole animal, one coordinate, all}; "
-             "distinct = distinct (variant, sizes, stride, sigma, num_instances, points); trivial = no visible keypoint",
+        rule="8 entry points (generate_confmaps rank 3/4, generate_multiconfmaps, centroid variant, the two DataPipe classes in 4 "
+             "configurations; DataPipes also with a second, different example in the same pipe and with n_samples = 2; every "
+             "entry point once with default sigma/output_stride) x n_samples {1,2} x H,W in 1..64 and 33..1024 for stride >= 16 "
+             "x stride {1,2,4,8,16,32} x sigma {.5,1,1.5,2.5,5} (60%) or log-uniform in [0.05,20] (40%) x 0-4 animals x 1-5 "
+             "nodes x coordinates on the k/16 lattice inside/on/outside the border, up to +-10 image sizes away (+6% arbitrary "
+             "float32) x NaN patterns {none, one node, anchor, whole animal, one coordinate, all}; distinct = distinct (variant, "
+             "sizes, stride, sigma, num_instances, points); trivial = no visible keypoint",
         assumptions=[
-            "sigma > 0, stride >= 1, finite coordinates (infinite inputs are outside the property's quantifier)",
+            "sigma > 0, stride >= 1, finite coordinates (infinite inputs are outside the property's quantifier; the code "
+            "returns an all-zero channel for them). stride = 0 is totalised by the model to an empty grid where torch.arange "
+            "raises; num_instances < 0 (slices from the end) is outside the model's Nat: neither is generated",
+            "sigma*stride is large enough that float32 2*sigma^2 does not underflow (< ~1e-19): below that the keypoint's own "
+            "cell is 0/0 = NaN -> nan_to_num -> 0 where the real-number statement (cm_one_iff) says 1; generated sigma >= 0.05",
+            "cm_pos_visible (v > 0 for a visible point) is a real-number statement: float32 underflows to 0 far from the "
+            f"keypoint; the harness asserts positivity only where the reference value is >= {TAIL_MIN}",
             "shape is ceil(H/stride) x ceil(W/stride); equals H/stride x W/stride when stride divides both "
             "(cm_shape_dvd) - the datasets only call it on stride-padded images",
-            "multi/centroid variant with n_samples > 1 is outside the correspondence (F-C01: the max-reduction mixes "
-            "samples); it is sampled and judged by the oracle only",
         ],
     )
     run_check(chk, main, replay)
